@@ -383,6 +383,12 @@ def run(ctx):
         res[key] = res[key] + res_p[key]
     res["impl"].update(res_p["impl"])
     res["ok"] += res_p["ok"]
+    # the tie is vacuous if a build logs nothing (hook commit missing / flag not passed): machinery failure, not a pass
+    for which, pre in (("index", ""), ("pointer", "ptr_")):
+        for st in ("trace_ev_goi", "trace_chk_C07_table_after_block"):
+            # (only if parallel blocks ran to their end: a build that crashes in every block is a verdict, reported below)
+            if int(ctx.stats.get(pre + st, 0)) == 0 and int(ctx.stats.get(pre + "op_ENDPAR", 0)) > 0:
+                raise vf.CheckFailure(f"the {which}-based manager build logged no {st[6:]} events: the cfg(oxidd_verif) hooks of /repo (hooks.json) are missing or inactive")
     # failures caused by the operating system refusing threads / memory are not verdicts: re-run those cases
     for attempt in range(3):
         rid = {cid for cid, m in res["bad_tr"] + res["bad_dd"] if vf.RESOURCE_RE.search(m)}
@@ -427,11 +433,6 @@ def run(ctx):
                  "replay_cmd": "./check C07 --replay <this file>",
                  "theorem_or_relation": "C07: coq/Props/C07.v (C07_run_inv, C07_conc_canonical, C07_erase_sim; apply cache: C07_cache_run_inv, C07_cache_trace_sim, C07_cache_clog_inv); driver relation named in the verdict"},
                 nfif=(kind != "prop"))
-    # the tie is vacuous if a build logs nothing (hook commit missing / flag not passed): machinery failure, not a pass
-    for which, pre in (("index", ""), ("pointer", "ptr_")):
-        for st in ("trace_ev_goi", "trace_chk_C07_table_after_block"):
-            if int(ctx.stats.get(pre + st, 0)) == 0:
-                raise vf.CheckFailure(f"the {which}-based manager build logged no {st[6:]} events: the cfg(oxidd_verif) hooks of /repo (hooks.json) are missing or inactive")
     ctx.samples = [{"case": h, "ops": ops[:30] + (["..."] if len(ops) > 30 else [])} for h, ops in (cases[:1] + cases[-1:] + pcases[:1])]
     ctx.stats["cases"] = len(cases) + len(pcases)
     ctx.stats["cases_index_manager"] = len(cases)
